@@ -120,6 +120,12 @@ def handleFilter (cmd : String) (a : Args) : String :=
          let out := Filters.oneShot arch (enc == 1) start inp
          s!"ok {out.length} {fnv out}"
        | _, _, _ => "bad-op")
+    | "bcj.step" =>
+      (match (a.get? "arch").bind archOf, a.nat? "enc", a.nat? "pos", a.nat? "pm" with
+       | some arch, some enc, some pos, some pm =>
+         let (b, n, st) := Filters.code arch (enc == 1) { pos := pos, prevMask := pm } inp.toArray
+         s!"ok {n} {st.pos % 4294967296} {st.prevMask} {fnv b.toList}"
+       | _, _, _, _ => "bad-op")
     | "delta.enc" => (match a.nat? "dist" with
        | some d => let out := Filters.deltaEncode d inp; s!"ok {out.length} {fnv out}"
        | none => "bad-op")
@@ -235,7 +241,7 @@ def handle (cmd : String) (a : Args) : String :=
   | "bcj.wstream" | "bcj.rstream" => handleBcjStream cmd a
   | "mem.enc" | "mem.lzmadec" | "mem.lzma2dec" => handleMem cmd a
   | "xz.dec" | "lzip.dec" => handleContainer cmd a
-  | "bcj.code" | "delta.enc" | "delta.dec" => handleFilter cmd a
+  | "bcj.code" | "bcj.step" | "delta.enc" | "delta.dec" => handleFilter cmd a
   | "lzma2.dec" => handleLzma2Dec a
   | "lzma.dec" => handleLzmaDec a
   | "lzip.encdict" => match a.nat? "d" with
